@@ -176,3 +176,14 @@ Print Assumptions try_int_prefix_refuted.
 Print Assumptions f64_term_prefix_refuted.
 Print Assumptions try_f64_prefix_refuted.
 Print Assumptions str_term_refuted.
+
+(* ---- tie to the source: the datatype white-lists of the model are the ones found in
+   api/src/term/_native_literal.rs today (re-generated into gen/Consts.v on every run) ---- *)
+From Sophia.gen Require Consts.
+Definition subset_str (a b : list str) : bool := forallb (fun x => existsb (str_eqb x) b) a.
+Definition same_set (a b : list str) : bool := subset_str a b && subset_str b a.
+Theorem whitelists_from_source :
+  same_set wl_signed Consts.wl_i32 = true /\ same_set wl_signed Consts.wl_isize = true
+  /\ same_set wl_usize Consts.wl_usize = true /\ same_set wl_f64 Consts.wl_f64 = true.
+Proof. repeat split; vm_compute; reflexivity. Qed.
+Print Assumptions whitelists_from_source.
